@@ -201,6 +201,16 @@ func genProxy(g *fact.Gen) {
 		[]string{"isIdentChar", "isBadNum", "isNum", "parseInt", "parsePrerelease", "parseBuild", "parse", "IsValid",
 			"Canonical", "Major", "Build", "compareInt", "nextIdent", "comparePrerelease", "Compare"}, "semver",
 		[]string{"GIV.GoLib"}, "GIV.Go.Semver", filepath.Join(pinnedDir(), "SemverGo.lean"))
+	// golang.org/x/mod/module (the escape codecs, CheckPath and everything it reaches, SplitPathVersion, CheckPathMajor,
+	// Check), translated from the same module-cache copy; GIV.Lemmas.ModuleGo proves the translation equal to the
+	// model's unescapeString / escapeString / checkElem / checkPath / splitPathVersion / checkPathMajor / check /
+	// escapePath / escapeVersion / unescapePath / unescapeVersion (errors: nil or not nil); package semver is the
+	// translation above
+	g.TranslateModule("ModuleGo", xmodFile(g.Repo, "module", "module.go"),
+		[]string{"modPathOK", "importPathOK", "fileNameOK", "firstPathOK", "checkElem", "checkPath", "splitGopkgIn", "SplitPathVersion",
+			"CheckPath", "CheckPathMajor", "MatchPathMajor", "Check", "escapeString", "unescapeString", "EscapePath", "EscapeVersion",
+			"UnescapePath", "UnescapeVersion"}, "module",
+		[]string{"GIV.GoLib", "GIV.GoLibStr", "GIV.Gen.SemverGo"}, "GIV.Go.Module", filepath.Join(pinnedDir(), "ModuleGo.lean"))
 	const rel = "goproxytest/proxy.go"
 	g.Emit("/-- Regular expressions over bytes (whole-string matching); `cls` = union of inclusive byte ranges. -/\ninductive Re where\n  | empty | eps\n  | cls (ranges : List (UInt8 × UInt8))\n  | cat (a b : Re) | alt (a b : Re) | star (a : Re)\n\n")
 
